@@ -288,4 +288,132 @@ theorem buildAcc_spec (fr : Ev → Bytes) (lim : Nat) (wd : WD) (batch : List Ev
   have := acc_foldl fr (deliverable batch) ⟨resetBuf lim wd, [], 0⟩
   simpa [resetBuf_data] using this
 
+/-! ### elasticsearch action line -/
+
+/-- a byte that may stand unescaped inside a JSON string and is not a newline -/
+def SafeByte (b : UInt8) : Prop := 32 ≤ b ∧ b ≠ 34 ∧ b ≠ 92
+
+instance (b : UInt8) : Decidable (SafeByte b) := by unfold SafeByte; infer_instance
+
+/-- `s` contains no newline and is read through by the JSON string scanner -/
+def Clean (s : Bytes) : Prop := NL ∉ s ∧ ∀ r, strBody (s ++ r) = strBody r
+
+theorem clean_nil : Clean [] := ⟨by simp, by simp⟩
+
+theorem clean_append {s t : Bytes} (hs : Clean s) (ht : Clean t) : Clean (s ++ t) :=
+  ⟨by simp [hs.1, ht.1], by intro r; rw [List.append_assoc, hs.2, ht.2]⟩
+
+theorem strBody_safe (b : UInt8) (hb : SafeByte b) (r : Bytes) : strBody (b :: r) = strBody r := by
+  obtain ⟨h1, h2, h3⟩ := hb
+  conv => lhs; unfold strBody
+  split <;> simp_all
+  intro hlt
+  exact absurd hlt (by simpa [UInt8.not_lt] using h1)
+
+theorem clean_single (b : UInt8) (hb : SafeByte b) : Clean [b] := by
+  refine ⟨?_, fun r => strBody_safe b hb r⟩
+  obtain ⟨h1, _, _⟩ := hb
+  simp [NL]
+  intro h; subst h; exact absurd h1 (by decide)
+
+theorem clean_of_safe (s : Bytes) (h : ∀ b ∈ s, SafeByte b) : Clean s := by
+  induction s with
+  | nil => exact clean_nil
+  | cons b bs ih =>
+    have := clean_append (clean_single b (h b (by simp))) (ih (fun x hx => h x (by simp [hx])))
+    simpa using this
+
+
+theorem hex_ok : ∀ k, k < 32 →
+    isHex (hexDigit (UInt8.ofNat k >>> 4)) = true ∧ isHex (hexDigit (UInt8.ofNat k &&& 15)) = true ∧
+    hexDigit (UInt8.ofNat k >>> 4) ≠ 10 ∧ hexDigit (UInt8.ofNat k &&& 15) ≠ 10 := by decide
+
+theorem strBody_esc2 (c : UInt8) (hc : c = 34 ∨ c = 92) (r : Bytes) : strBody (92 :: c :: r) = strBody r := by
+  rcases hc with h | h <;> subst h <;> (conv => lhs; unfold strBody) <;> simp
+
+theorem strBody_escU (a b : UInt8) (ha : isHex a = true) (hb : isHex b = true) (r : Bytes) :
+    strBody (92 :: 117 :: 48 :: 48 :: a :: b :: r) = strBody r := by
+  have h48 : isHex 48 = true := by decide
+  conv => lhs; unfold strBody
+  simp only [h48, ha, hb, Bool.and_self, if_true]
+
+theorem clean_escapeIdx (v : Bytes) : Clean (escapeIdx v) := by
+  induction v with
+  | nil => exact clean_nil
+  | cons c cs ih =>
+    unfold escapeIdx
+    split
+    · rename_i h
+      have : Clean [92, c] := by
+        refine ⟨?_, fun r => strBody_esc2 c h r⟩
+        rcases h with h | h <;> subst h <;> decide
+      exact clean_append this ih
+    · split
+      · rename_i h32
+        have hk : c.toNat < 32 := by simpa [UInt8.lt_iff_toNat_lt] using h32
+        have hh := hex_ok c.toNat hk
+        rw [UInt8.ofNat_toNat] at hh
+        have : Clean [92, 117, 48, 48, hexDigit (c >>> 4), hexDigit (c &&& 15)] := by
+          refine ⟨?_, fun r => strBody_escU _ _ hh.1 hh.2.1 r⟩
+          simp [NL]
+          exact ⟨fun h => hh.2.2.1 h.symm, fun h => hh.2.2.2 h.symm⟩
+        exact clean_append this ih
+      · rename_i h1 h2
+        have hs : SafeByte c := by
+          refine ⟨by simpa [UInt8.not_lt] using h2, fun h => h1 (Or.inl h), fun h => h1 (Or.inr h)⟩
+        exact clean_append (clean_single c hs) ih
+
+
+theorem indexValue_clean (c : EsCfg) (e : Ev) (i : Nat) (v : Bytes)
+    (ht : ∀ b ∈ c.time, SafeByte b) (h : indexValue true c e i = some v) : Clean v := by
+  unfold indexValue at h
+  split at h
+  · simp at h
+  · split at h
+    · simp at h; subst h; exact clean_of_safe _ ht
+    · split at h
+      · simp at h; subst h; exact clean_escapeIdx _
+      · simp at h
+
+theorem expandFormat_clean (c : EsCfg) (e : Ev) (ht : ∀ b ∈ c.time, SafeByte b) :
+    ∀ (fmt : Bytes) (i : Nat) (out res : Bytes), (∀ b ∈ fmt, SafeByte b) →
+      expandFormat true c e fmt i out = some res → ∃ x, res = out ++ x ∧ Clean x := by
+  intro fmt
+  induction fmt with
+  | nil => intro i out res _ h; simp [expandFormat] at h; exact ⟨[], by simp [h], clean_nil⟩
+  | cons ch rest ih =>
+    intro i out res hf h
+    have hrest : ∀ b ∈ rest, SafeByte b := fun b hb => hf b (by simp [hb])
+    unfold expandFormat at h
+    split at h
+    · obtain ⟨x, hx, hc⟩ := ih i (out ++ [ch]) res hrest h
+      exact ⟨[ch] ++ x, by simp [hx], clean_append (clean_single ch (hf ch (by simp))) hc⟩
+    · split at h
+      · simp at h
+      · rename_i v hv
+        obtain ⟨x, hx, hc⟩ := ih (i + 1) (out ++ v) res hrest h
+        exact ⟨v ++ x, by simp [hx], clean_append (indexValue_clean c e i v ht hv) hc⟩
+
+theorem stripPrefix_append (pre rest : Bytes) : stripPrefix pre (pre ++ rest) = some rest := by
+  simp [stripPrefix]
+
+/-- shape of the action line: header, a clean index name, the closing `"}}` -/
+theorem actionLine_shape (c : EsCfg) (e : Ev) (a : Bytes)
+    (hf : ∀ b ∈ c.format, SafeByte b) (ht : ∀ b ∈ c.time, SafeByte b)
+    (h : actionLine true c e = some a) :
+    ∃ x, a = headerPrefix c ++ x ++ [34, 125, 125] ∧ Clean x := by
+  unfold actionLine at h
+  cases hx : expandFormat true c e c.format 0 (headerPrefix c) with
+  | none => simp [hx] at h
+  | some res =>
+    obtain ⟨x, hres, hc⟩ := expandFormat_clean c e ht c.format 0 (headerPrefix c) res hf hx
+    simp [hx] at h
+    exact ⟨x, by rw [← h, hres]; simp [lit], hc⟩
+
+theorem pairUp_interleave (l : List (Bytes × Bytes)) :
+    pairUp (l.flatMap (fun p => [p.1, p.2])) = some l := by
+  induction l with
+  | nil => rfl
+  | cons p ps ih => simp [List.flatMap_cons, pairUp, ih]
+
 end FileD.Payload
